@@ -1673,7 +1673,11 @@ pub fn gen_query(r: &mut Rng, stats: &mut Stats) -> DNSPkt {
     let pool = gen_pool(r, stats);
     let mut q = gen_base(r, &pool);
     q.qr = false;
-    q.tc = false;
+    // header bits a query has no business setting are still the client's to set: none of them may show in the reply
+    q.tc = r.chance(1, 5);
+    if q.tc {
+        stats.bump("query.tc-set");
+    }
     q.rcode = RCode(0);
     if q.edns.is_some() {
         let mut opts: Vec<EdnsOption> = match r.below(3) {
